@@ -797,6 +797,7 @@ def _r7_structural(run: Run, rt):
 
 
 def run(run: Run):
+    from .common import cached_guard as _cached_guard
     src = get_source()
     g = get_grammar(src)
     em = get_emission(src)
@@ -808,9 +809,9 @@ def run(run: Run):
     run.rule('C15.R5', 'TODAY = local calendar date at midnight')
     run.rule('C15.R6', 'EDATE/EOMONTH shift by trunc(n) months; EOMONTH = last day of the shifted month')
     run.rule('C15.R7', 'DATE: year window, January 1st + (month-1) months + (day-1) days on every path')
-    run.guard('C15.R1', check_plumbing, run, 'C15.R1', src, em, rt, FUNCS)
-    run.guard('C15.R2', r2, run, rt)
-    run.guard('C15.R3', r3, run, rt)
+    _cached_guard(run, 'C15.R1', check_plumbing, 'C15.R1', src, em, rt, FUNCS)
+    _cached_guard(run, 'C15.R2', r2, rt)
+    _cached_guard(run, 'C15.R3', r3, rt)
     def _r4_both(run, rt):
         sub = Run('tmp', run.tier, run.seed, quiet=True)
         try:
@@ -824,10 +825,10 @@ def run(run: Run):
         for f in sub.findings:
             run.bad(f['rule'], f['construct'], f['sub'], f['message'], loc=f['loc'])
         # (the structural reading is only the fallback: it judges how the loop is written, the evaluation what it computes)
-    run.guard('C15.R4', _r4_both, run, rt)
-    run.guard('C15.R5', r5, run, rt)
-    run.guard('C15.R6', r6, run, rt)
-    run.guard('C15.R7', r7, run, rt)
+    _cached_guard(run, 'C15.R4', _r4_both, rt)
+    _cached_guard(run, 'C15.R5', r5, rt)
+    _cached_guard(run, 'C15.R6', r6, rt)
+    _cached_guard(run, 'C15.R7', r7, rt)
     # a function result depends on its arguments only: no runtime helper keeps results or other state between calls
     from .common import borrow as _borrow
     from . import c08 as _c08
